@@ -60,6 +60,10 @@ type BacktrackerState struct {
 	// zero-width assertions like \b that need backward context.
 	SpanStart int
 
+	// stack holds the pending alternatives of the depth-first exploration
+	// (see explore). It is reused across searches.
+	stack []backtrackFrame
+
 	// Longest enables leftmost-longest match semantics (POSIX/AWK compatibility).
 	// When true, explores all branches to find the longest match instead of
 	// returning on the first match found.
@@ -294,290 +298,169 @@ func (b *BoundedBacktracker) SearchAtWithState(haystack []byte, at int, state *B
 	return -1, -1, false
 }
 
-// backtrackWithState performs recursive backtracking search for IsMatch.
-// Returns true if a match is found from the given (pos, state).
+// backtrackFrame is one pending alternative of the depth-first exploration:
+// the right branch of a split that is tried when the left branch has failed.
+type backtrackFrame struct {
+	state StateID
+	pos   int
+}
+
+// backtrackWithState reports whether a match is reachable from (pos, nfaState).
 // This method uses external state for thread safety.
-//
-//nolint:gocyclo,cyclop // complexity is inherent to state machine dispatch
 func (b *BoundedBacktracker) backtrackWithState(haystack []byte, pos int, nfaState StateID, st *BacktrackerState) bool {
-	// Check bounds
-	if nfaState == InvalidState || int(nfaState) >= b.numStates {
-		return false
-	}
-
-	// Check and mark visited
-	if !b.shouldVisit(st, nfaState, pos) {
-		return false
-	}
-
-	s := b.nfa.State(nfaState)
-	if s == nil {
-		return false
-	}
-
-	switch s.Kind() {
-	case StateMatch:
-		return true
-
-	case StateByteRange:
-		lo, hi, next := s.ByteRange()
-		if pos < len(haystack) {
-			c := haystack[pos]
-			if c >= lo && c <= hi {
-				return b.backtrackWithState(haystack, pos+1, next, st)
-			}
-		}
-		return false
-
-	case StateSparse:
-		if pos >= len(haystack) {
-			return false
-		}
-		c := haystack[pos]
-		for _, tr := range s.Transitions() {
-			if c >= tr.Lo && c <= tr.Hi {
-				return b.backtrackWithState(haystack, pos+1, tr.Next, st)
-			}
-		}
-		return false
-
-	case StateSplit:
-		left, right := s.Split()
-		// Try left branch first (greedy), then right
-		return b.backtrackWithState(haystack, pos, left, st) || b.backtrackWithState(haystack, pos, right, st)
-
-	case StateEpsilon:
-		return b.backtrackWithState(haystack, pos, s.Epsilon(), st)
-
-	case StateCapture:
-		_, _, next := s.Capture()
-		return b.backtrackWithState(haystack, pos, next, st)
-
-	case StateLook:
-		look, next := s.Look()
-		if checkLookAssertion(look, haystack, pos) {
-			return b.backtrackWithState(haystack, pos, next, st)
-		}
-		return false
-
-	case StateRuneAny:
-		// Match any rune (including newline)
-		if pos < len(haystack) {
-			width := runeWidth(haystack[pos:])
-			if width > 0 {
-				return b.backtrackWithState(haystack, pos+width, s.RuneAny(), st)
-			}
-		}
-		return false
-
-	case StateRuneAnyNotNL:
-		// Match any rune except newline
-		if pos < len(haystack) && haystack[pos] != '\n' {
-			width := runeWidth(haystack[pos:])
-			if width > 0 {
-				return b.backtrackWithState(haystack, pos+width, s.RuneAnyNotNL(), st)
-			}
-		}
-		return false
-
-	case StateFail:
-		return false
-	}
-
-	return false
+	return b.explore(haystack, pos, nfaState, st, false) >= 0
 }
 
-// backtrackFindWithState performs recursive backtracking to find match end position.
-// Returns end position if match found, -1 otherwise.
+// backtrackFindWithState returns the end position of the leftmost-first match
+// reachable from (pos, nfaState), or -1.
 // This method uses external state for thread safety.
-//
-//nolint:gocyclo,cyclop // complexity is inherent to state machine dispatch
 func (b *BoundedBacktracker) backtrackFindWithState(haystack []byte, pos int, nfaState StateID, st *BacktrackerState) int {
-	// Check bounds
-	if nfaState == InvalidState || int(nfaState) >= b.numStates {
-		return -1
-	}
-
-	// Check and mark visited
-	if !b.shouldVisit(st, nfaState, pos) {
-		return -1
-	}
-
-	s := b.nfa.State(nfaState)
-	if s == nil {
-		return -1
-	}
-
-	switch s.Kind() {
-	case StateMatch:
-		return pos
-
-	case StateByteRange:
-		lo, hi, next := s.ByteRange()
-		if pos < len(haystack) {
-			c := haystack[pos]
-			if c >= lo && c <= hi {
-				return b.backtrackFindWithState(haystack, pos+1, next, st)
-			}
-		}
-		return -1
-
-	case StateSparse:
-		if pos >= len(haystack) {
-			return -1
-		}
-		c := haystack[pos]
-		for _, tr := range s.Transitions() {
-			if c >= tr.Lo && c <= tr.Hi {
-				return b.backtrackFindWithState(haystack, pos+1, tr.Next, st)
-			}
-		}
-		return -1
-
-	case StateSplit:
-		left, right := s.Split()
-		// Try left first, then right
-		if end := b.backtrackFindWithState(haystack, pos, left, st); end >= 0 {
-			return end
-		}
-		return b.backtrackFindWithState(haystack, pos, right, st)
-
-	case StateEpsilon:
-		return b.backtrackFindWithState(haystack, pos, s.Epsilon(), st)
-
-	case StateCapture:
-		_, _, next := s.Capture()
-		return b.backtrackFindWithState(haystack, pos, next, st)
-
-	case StateLook:
-		look, next := s.Look()
-		if checkLookAssertion(look, haystack, pos) {
-			return b.backtrackFindWithState(haystack, pos, next, st)
-		}
-		return -1
-
-	case StateRuneAny:
-		if pos < len(haystack) {
-			width := runeWidth(haystack[pos:])
-			if width > 0 {
-				return b.backtrackFindWithState(haystack, pos+width, s.RuneAny(), st)
-			}
-		}
-		return -1
-
-	case StateRuneAnyNotNL:
-		if pos < len(haystack) && haystack[pos] != '\n' {
-			width := runeWidth(haystack[pos:])
-			if width > 0 {
-				return b.backtrackFindWithState(haystack, pos+width, s.RuneAnyNotNL(), st)
-			}
-		}
-		return -1
-
-	case StateFail:
-		return -1
-	}
-
-	return -1
+	return b.explore(haystack, pos, nfaState, st, false)
 }
 
-// backtrackFindLongestWithState performs backtracking to find the longest match end position.
-// Unlike backtrackFindWithState, this explores ALL branches at splits to find the longest match.
-// Returns end position if match found, -1 otherwise.
+// backtrackFindLongestWithState returns the end position of the longest match
+// reachable from (pos, nfaState), or -1. Unlike backtrackFindWithState it
+// explores ALL branches at splits.
 // This method uses external state for thread safety.
-//
-//nolint:gocyclo,cyclop // complexity is inherent to state machine dispatch
 func (b *BoundedBacktracker) backtrackFindLongestWithState(haystack []byte, pos int, nfaState StateID, st *BacktrackerState) int {
-	// Check bounds
-	if nfaState == InvalidState || int(nfaState) >= b.numStates {
-		return -1
-	}
+	return b.explore(haystack, pos, nfaState, st, true)
+}
 
-	// Check and mark visited
-	if !b.shouldVisit(st, nfaState, pos) {
-		return -1
-	}
+// explore is the depth-first search behind the three entry points above.
+//
+// It is iterative: every NFA state except a split has at most one successor,
+// so only the right branch of a split has to be remembered, on an explicit
+// stack kept in the BacktrackerState. (The previous recursive formulation
+// needed one goroutine stack frame per visited (state, position) pair, about
+// 2 KB of stack per haystack byte for a case-folded class loop: Match of
+// (?i)[a-z]* on 250 000 letters died with "fatal error: stack overflow".)
+//
+// Alternatives are tried in priority order (left before right), so in
+// leftmost-first mode the first match state reached is the preferred match.
+// In longest mode all alternatives are explored and the largest end wins.
+//
+//nolint:gocyclo,cyclop,funlen // complexity is inherent to state machine dispatch
+func (b *BoundedBacktracker) explore(haystack []byte, pos int, nfaState StateID, st *BacktrackerState, longest bool) int {
+	stack := st.stack[:0]
+	best := -1
 
-	s := b.nfa.State(nfaState)
-	if s == nil {
-		return -1
-	}
+	for {
+		// Follow single-successor states until the thread dies or matches.
+	thread:
+		for {
+			// Check bounds
+			if nfaState == InvalidState || int(nfaState) >= b.numStates {
+				break thread
+			}
 
-	switch s.Kind() {
-	case StateMatch:
-		return pos
+			// Check and mark visited
+			if !b.shouldVisit(st, nfaState, pos) {
+				break thread
+			}
 
-	case StateByteRange:
-		lo, hi, next := s.ByteRange()
-		if pos < len(haystack) {
-			c := haystack[pos]
-			if c >= lo && c <= hi {
-				return b.backtrackFindLongestWithState(haystack, pos+1, next, st)
+			s := b.nfa.State(nfaState)
+			if s == nil {
+				break thread
+			}
+
+			switch s.Kind() {
+			case StateMatch:
+				if !longest {
+					st.stack = stack[:0]
+					return pos
+				}
+				if pos > best {
+					best = pos
+				}
+				break thread
+
+			case StateByteRange:
+				lo, hi, next := s.ByteRange()
+				if pos >= len(haystack) {
+					break thread
+				}
+				c := haystack[pos]
+				if c < lo || c > hi {
+					break thread
+				}
+				nfaState = next
+				pos++
+
+			case StateSparse:
+				if pos >= len(haystack) {
+					break thread
+				}
+				c := haystack[pos]
+				next := InvalidState
+				for _, tr := range s.Transitions() {
+					if c >= tr.Lo && c <= tr.Hi {
+						next = tr.Next
+						break
+					}
+				}
+				if next == InvalidState {
+					break thread
+				}
+				nfaState = next
+				pos++
+
+			case StateSplit:
+				left, right := s.Split()
+				// Try left first; right is tried when left is exhausted
+				stack = append(stack, backtrackFrame{state: right, pos: pos})
+				nfaState = left
+
+			case StateEpsilon:
+				nfaState = s.Epsilon()
+
+			case StateCapture:
+				_, _, next := s.Capture()
+				nfaState = next
+
+			case StateLook:
+				look, next := s.Look()
+				if !checkLookAssertion(look, haystack, pos) {
+					break thread
+				}
+				nfaState = next
+
+			case StateRuneAny:
+				if pos >= len(haystack) {
+					break thread
+				}
+				width := runeWidth(haystack[pos:])
+				if width <= 0 {
+					break thread
+				}
+				nfaState = s.RuneAny()
+				pos += width
+
+			case StateRuneAnyNotNL:
+				if pos >= len(haystack) || haystack[pos] == '\n' {
+					break thread
+				}
+				width := runeWidth(haystack[pos:])
+				if width <= 0 {
+					break thread
+				}
+				nfaState = s.RuneAnyNotNL()
+				pos += width
+
+			default: // StateFail and unknown kinds
+				break thread
 			}
 		}
-		return -1
 
-	case StateSparse:
-		if pos >= len(haystack) {
-			return -1
+		if len(stack) == 0 {
+			break
 		}
-		c := haystack[pos]
-		for _, tr := range s.Transitions() {
-			if c >= tr.Lo && c <= tr.Hi {
-				return b.backtrackFindLongestWithState(haystack, pos+1, tr.Next, st)
-			}
-		}
-		return -1
-
-	case StateSplit:
-		left, right := s.Split()
-		// For longest match: try BOTH branches and return the longer one
-		leftEnd := b.backtrackFindLongestWithState(haystack, pos, left, st)
-		rightEnd := b.backtrackFindLongestWithState(haystack, pos, right, st)
-
-		// Return the longer match (or the one that matched if only one did)
-		if leftEnd >= rightEnd {
-			return leftEnd
-		}
-		return rightEnd
-
-	case StateEpsilon:
-		return b.backtrackFindLongestWithState(haystack, pos, s.Epsilon(), st)
-
-	case StateCapture:
-		_, _, next := s.Capture()
-		return b.backtrackFindLongestWithState(haystack, pos, next, st)
-
-	case StateLook:
-		look, next := s.Look()
-		if checkLookAssertion(look, haystack, pos) {
-			return b.backtrackFindLongestWithState(haystack, pos, next, st)
-		}
-		return -1
-
-	case StateRuneAny:
-		if pos < len(haystack) {
-			width := runeWidth(haystack[pos:])
-			if width > 0 {
-				return b.backtrackFindLongestWithState(haystack, pos+width, s.RuneAny(), st)
-			}
-		}
-		return -1
-
-	case StateRuneAnyNotNL:
-		if pos < len(haystack) && haystack[pos] != '\n' {
-			width := runeWidth(haystack[pos:])
-			if width > 0 {
-				return b.backtrackFindLongestWithState(haystack, pos+width, s.RuneAnyNotNL(), st)
-			}
-		}
-		return -1
-
-	case StateFail:
-		return -1
+		top := stack[len(stack)-1]
+		stack = stack[:len(stack)-1]
+		nfaState, pos = top.state, top.pos
 	}
 
-	return -1
+	st.stack = stack[:0]
+	return best
 }
 
 // runeWidth returns the width in bytes of the first UTF-8 rune in b.
